@@ -58,6 +58,19 @@ pub fn scenario(seed: u64, rep: &mut Report) {
             b.vote_duration(vote_duration);
             b.auto_nat_listen_duration(None);
         }) }).await;
+        // An application that was slow for a while: more events than the event channel holds pile
+        // up and are then drained. Later address changes must still be announced.
+        if rng.chance(1, 4) {
+            let src = discv5::NodeAddress::new(v4(10, 41, 0, 1, 9500), NodeId::new(&rng.array()));
+            for k in 0..130u32 {
+                rig.emit(HandlerOut::Request(src.clone(), Box::new(discv5::verif::Request { id: RequestId(k.to_be_bytes().to_vec()), body: RequestBody::Talk { protocol: b"flood".to_vec(), request: vec![] } }))).await;
+            }
+            rig.settle().await;
+            let drained = rig.take_events().len();
+            rig.take_handler_in();
+            rep.count("scenarios_after_event_backlog");
+            rep.max("events_drained_after_backlog", drained as u64);
+        }
         let nvoters = min + rng.usize(10);
         let mut voters: Vec<Voter> = (0..nvoters).map(|i| {
             let sk = signing_key(&mut rng);
